@@ -84,3 +84,13 @@ package common
 //@   atcall WriteMessage requires exclusive: heldx(ws.writeM)
 //@   ensures ret1 == nil ==> ret0 == len(data)
 //@   flag noframe
+
+// AES-GCM helpers used by the handshake (C06, C07). gcm(key) = the AEAD "AES-GCM under these key bytes".
+//@ ghost func gcm(key []byte) int { return uf("aead_mk", 1, key, 0) }
+//@ func AESGCMDecrypt
+//@   ensures accepts: ret1 == nil <==> (len(nonce) == 12 && (len(key) == 16 || len(key) == 24 || len(key) == 32) && len(ciphertext) >= 16 && ufb("aead_valid", gcm(key), nonce, ciphertext))
+//@   ensures plaintext: ret1 == nil ==> (fresh(ret0) || len(ret0) == 0) && len(ret0) == len(ciphertext) - 16 && (forall k int :: 0 <= k && k < len(ret0) ==> ret0[k] == ufbytes("aead_open", k, gcm(key), nonce, ciphertext))
+//@   ensures failNil: ret1 != nil ==> ret0 == nil
+//@ func AESGCMEncrypt
+//@   ensures accepts: ret1 == nil <==> (len(nonce) == 12 && (len(key) == 16 || len(key) == 24 || len(key) == 32))
+//@   ensures sealed: ret1 == nil ==> fresh(ret0) && len(ret0) == len(plaintext) + 16 && ufb("aead_valid", gcm(key), nonce, ret0) && (forall k int :: 0 <= k && k < len(plaintext) ==> ufbytes("aead_open", k, gcm(key), nonce, ret0) == plaintext[k])
